@@ -1473,7 +1473,14 @@ func runC13(c *lib.Ctx) {
 	var hs []c13History
 	sweep := c13Sweep()
 	hs = append(hs, sweep...)
-	random := c13Random(c.Rng, c.Scale(1500, 6000), avoid)
+	nRandom := c.Scale(1500, 6000)
+	if c.GenBroken != "" {
+		// an obligation over the regenerated code facts (Theorems/GenC13.lean) no longer holds: the
+		// code changed where the model mirrors it — search harder for a failing history
+		nRandom *= 3
+		c.Ev.Coverage["witness_search_for_broken_obligation"] = c.GenBroken
+	}
+	random := c13Random(c.Rng, nRandom, avoid)
 	hs = append(hs, random...)
 	// bounded-exhaustive families: short in the quick tier, up to the full bound in the thorough tier
 	e1 := c13Exhaustive(c.Scale(c13ExhLen2-1, c13ExhLen2), false, avoid)
